@@ -4,7 +4,7 @@
 set -u
 P=$1; NAME=${2:-$P-a}
 export GOFLAGS=-mod=mod GOPROXY=off
-WT=/tmp/wt0
+WT=${SEED_WT:-/tmp/wt0}
 [ -d $WT ] || git -C /repo worktree add --detach $WT HEAD -q
 cd $WT && git checkout -q --detach main 2>/dev/null; git checkout -q -- .; git clean -fdq
 SRC=/tmp/seed/$P
@@ -12,13 +12,14 @@ PATCH=/tmp/seed/$P.patch.diff
 [ -f $PATCH ] || (cd $SRC && git diff > $PATCH)
 DEMO_REL=$(cd $SRC && git status --short | grep '^??' | grep -v 'test/compare/cmd/cmd' | awk '{print $2}' | head -1)
 echo "demo file: $DEMO_REL"
-PKG=./$(dirname $DEMO_REL)
+PKG=./$(dirname $DEMO_REL); MODDIR=$WT
+case $DEMO_REL in test/*) MODDIR=$WT/test; PKG=./$(dirname ${DEMO_REL#test/});; esac
 cp $SRC/$DEMO_REL $WT/$DEMO_REL
 echo "== demo on unchanged tree (expect ok)"
-(cd $WT && go test -vet=off -count=1 -run 'TestSeed' $PKG 2>&1 | tail -3)
+(cd $MODDIR && go test -vet=off -count=1 -run 'TestSeed' $PKG 2>&1 | tail -3)
 git -C $WT apply $PATCH || { echo "PATCH DOES NOT APPLY"; exit 1; }
 echo "== demo with patch (expect FAIL)"
-(cd $WT && go test -vet=off -count=1 -run 'TestSeed' $PKG 2>&1 | tail -4 | cut -c1-200)
+(cd $MODDIR && go test -vet=off -count=1 -run 'TestSeed' $PKG 2>&1 | tail -4 | cut -c1-200)
 rm $WT/$DEMO_REL
 echo "== full suite with patch (expect no failures)"
 (cd $WT && go test -vet=off -count=1 ./... 2>&1 | grep -v "^ok\|no test files" | head -5; cd test && go test -vet=off -count=1 ./... 2>&1 | grep -v "^ok\|no test files" | head -5)
